@@ -183,8 +183,16 @@ unsafe fn copy_bytes(src: *const u8, dst: *mut u8, count: usize){
         return;
     }
 
-    for i in 0..count{
-        *dst.add(i) = *src.add(i);
+    // Regions may overlap (insert shifts right, remove shifts left):
+    // copy in the direction that never overwrites bytes not yet read.
+    if (dst as usize) <= (src as usize) {
+        for i in 0..count{
+            *dst.add(i) = *src.add(i);
+        }
+    } else {
+        for i in (0..count).rev(){
+            *dst.add(i) = *src.add(i);
+        }
     }
 }
 
